@@ -1,7 +1,8 @@
-(* C13 -- driver of the extracted Gallina model (C13Model.v: parse; C14Model.v: eval) with OCaml floats.
+(* C13 -- driver of the extracted Gallina model (C13Model.v: parse_gen; C14Model.v: eval) with OCaml floats.
    One line per case: id \t tokens separated by blanks \t values
    Output: M id NONE            the model rejects the token list
-           M id OK v v'         value of the parsed tree (v' at slightly perturbed variable values) *)
+           M id OK v v' [CE]    value of the parsed tree (v' at slightly perturbed variable values); CE: the tree has a
+                                constant exponent whose evaluation fails (the code evaluates it at analysis time) *)
 open C13_model
 
 let rec pos_of_int n = if n <= 1 then XH else if n land 1 = 0 then XO (pos_of_int (n / 2)) else XI (pos_of_int (n / 2))
@@ -38,8 +39,10 @@ let fops : float numOps = {
   ufun = (fun f a -> match f with
     | Abs -> abs_float a | Exp2 -> Float.exp2 a | Expm1 -> expm1 a | Cbrt -> Float.cbrt a
     | Log2 -> Float.log2 a | Log1p -> log1p a
-    | Acosh -> log (a +. sqrt (a *. a -. 1.)) | Asinh -> log (a +. sqrt (a *. a +. 1.))
-    | Atanh -> 0.5 *. log ((1. +. a) /. (1. -. a))
+    (* the C library functions (OCaml >= 4.13), as in the code; the textbook formulas log(a + sqrt(a*a+1)) ... lose
+       all accuracy for large negative arguments (asinh) or small ones (atanh) *)
+    | Acosh -> Float.acosh a | Asinh -> Float.asinh a
+    | Atanh -> Float.atanh a
     | Erf -> Float.erf a | Erfc -> Float.erfc a
     | Tgamma -> gamma a | Lgamma -> log (abs_float (gamma a))
     | Heav -> if a < 0. then 0. else 1.);
@@ -94,6 +97,55 @@ let tok_of s =
   | _ ->
     if String.length s > 0 && s.[0] >= '0' && s.[0] <= '9' then (try KNum (q_of_string s) with _ -> KBad) else KBad
 
+(* flags of the model variant, observed on the real code by check.py: argv = depth_stop lpar_match or_first (0/1) *)
+let flag i = Array.length Sys.argv > i && Sys.argv.(i) = "1"
+let variant = { v_depth_stop = flag 1; v_lpar_match = flag 2; v_or_first = flag 3 }
+
+(* TBinaryOperation::analyse evaluates a constant exponent when the formula is analysed: a formula with an exponent
+   that has no variable and whose evaluation fails (a library function reports a domain / range error through errno,
+   a division by a number below DBL_MIN) is rejected by the code at analysis time.  [const_exp_fails e]: the parsed
+   tree has such an exponent. *)
+let rec has_var = function
+  | Num _ | Ln10 -> false
+  | Var _ -> true
+  | Neg a | PowN (_, a) | Fun (_, a) | UFun (_, a) -> has_var a
+  | Bin (_, a, b) | BFun (_, a, b) -> has_var a || has_var b
+  | Cond (c, a, b) -> has_varl c || has_var a || has_var b
+  | ExpDeriv (a, b, d) -> has_var a || has_var b || has_var d
+and has_varl = function
+  | LCmp (_, a, b) -> has_var a || has_var b
+  | LAnd (a, b) | LOr (a, b) -> has_varl a || has_varl b
+  | LNot a -> has_varl a
+
+let env0 = fun _ -> 0.
+let value e = eval fops env0 e
+let bad_result r = (match Float.classify_float r with FP_nan | FP_infinite | FP_subnormal -> true | _ -> false)
+(* does the evaluation of the constant expression e raise an error in the code? *)
+let rec fails e =
+  match e with
+  | Num _ | Ln10 | Var _ -> false
+  | Neg a | PowN (_, a) -> fails a
+  | Bin (o, a, b) -> fails a || fails b || (match o with Div -> abs_float (value b) < min_float | _ -> false)
+  | Fun (f, a) -> fails a || bad_result (value e) || (match f with Exp -> value e = 0. | _ -> false)
+  | UFun (f, a) -> fails a || bad_result (value e) ||
+                   (match f with Exp2 | Erfc | Tgamma -> value e = 0. | _ -> false)
+  | BFun (_, a, b) -> fails a || fails b || bad_result (value e)
+  | Cond (_, a, b) -> fails a || fails b
+  | ExpDeriv (a, b, d) -> fails a || fails b || fails d
+let rec const_exp_fails e =
+  match e with
+  | Num _ | Ln10 | Var _ -> false
+  | Neg a | PowN (_, a) | Fun (_, a) | UFun (_, a) -> const_exp_fails a
+  | Bin (o, a, b) ->
+    const_exp_fails a || const_exp_fails b || (match o with Pow -> (not (has_var b)) && fails b | _ -> false)
+  | BFun (_, a, b) -> const_exp_fails a || const_exp_fails b
+  | Cond (c, a, b) -> const_exp_failsl c || const_exp_fails a || const_exp_fails b
+  | ExpDeriv (a, b, d) -> const_exp_fails a || const_exp_fails b || const_exp_fails d
+and const_exp_failsl = function
+  | LCmp (_, a, b) -> const_exp_fails a || const_exp_fails b
+  | LAnd (a, b) | LOr (a, b) -> const_exp_failsl a || const_exp_failsl b
+  | LNot a -> const_exp_failsl a
+
 let () =
   (try
     while true do
@@ -104,9 +156,10 @@ let () =
         let env k = fun n -> let i = int_of_nat n in
           if i < Array.length vals then vals.(i) *. (1. +. k *. float_of_int (i + 1) *. 1e-12) else 0. in
         let tl = List.filter (fun s -> s <> "") (String.split_on_char ' ' toks) |> List.map tok_of in
-        (match parse tl with
+        (match parse_gen variant tl with
          | None -> Printf.printf "M %s NONE\n" id
-         | Some e -> Printf.printf "M %s OK %.17g %.17g\n" id (eval fops (env 0.) e) (eval fops_p (env 1.) e))
+         | Some e -> Printf.printf "M %s OK %.17g %.17g%s\n" id (eval fops (env 0.) e) (eval fops_p (env 1.) e)
+                       (if const_exp_fails e then " CE" else ""))
       | _ -> ()
     done
   with End_of_file -> ())
